@@ -17,26 +17,26 @@ PM = "grin_core::core::pmmr::pmmr::PMMR::"
 def run(c):
     # --- fork-local validation dominates application
     CL = P + "process_block@txhashset::txhashset::extending"
-    c.r1("rewind-before-utxo", CL, P + "rewind_and_apply_fork", sink=P + "validate_utxo", via=0)
-    c.r1("utxo-before-apply", CL, P + "validate_utxo", sink=P + "apply_block_to_txhashset", via=0)
+    c.r1("rewind-before-utxo", CL, P + "rewind_and_apply_fork", sink=P + "validate_utxo", via=2)
+    c.r1("utxo-before-apply", CL, P + "validate_utxo", sink=P + "apply_block_to_txhashset", via=2)
     F = P + "rewind_and_apply_fork"
-    c.r1("fork-rewind-first", F, E + "rewind", sink=P + "apply_block_to_txhashset", via=0,
+    c.r1("fork-rewind-first", F, E + "rewind", sink=P + "apply_block_to_txhashset", via=2,
          desc="rewind_and_apply_fork: the extension is rewound to the fork point before any block is re-applied")
-    c.r1("fork-utxo-before-apply", F, P + "validate_utxo", sink=P + "apply_block_to_txhashset", start=NEXT, via=0,
+    c.r1("fork-utxo-before-apply", F, P + "validate_utxo", sink=P + "apply_block_to_txhashset", start=NEXT, via=2,
          desc="fork loop: every re-applied block passes validate_utxo first")
-    c.r1("fork-header-first", F, P + "rewind_and_apply_header_fork", sink=E + "rewind", via=0)
-    c.r1("validate_utxo", P + "validate_utxo", U + "validate_block", via=0, desc="pipe::validate_utxo returns UTXOView::validate_block's verdict")
+    c.r1("fork-header-first", F, P + "rewind_and_apply_header_fork", sink=E + "rewind", via=2)
+    c.r1("validate_utxo", P + "validate_utxo", U + "validate_block", via=2, desc="pipe::validate_utxo returns UTXOView::validate_block's verdict")
     c.r2_arg("validate_utxo-view", P + "validate_utxo", U + "validate_block", 0, must=["call:Extension::utxo_view", "arg1.extension", "arg1.header_extension"],
              desc="validate_utxo uses the view of the extension pair (fork-local state), not the committed txhashset")
-    c.r1("apply_block_to_txhashset", P + "apply_block_to_txhashset", E + "apply_block", via=0)
+    c.r1("apply_block_to_txhashset", P + "apply_block_to_txhashset", E + "apply_block", via=2)
     # --- UTXO view
     for fn in ("validate_block", "validate_tx"):
-        c.r1("view-%s-inputs" % fn, U + fn, U + "validate_inputs", via=0)
+        c.r1("view-%s-inputs" % fn, U + fn, U + "validate_inputs", via=2)
         c.loop("view-%s-outputs" % fn, U + fn, U + "validate_output", over=r"::outputs\(arg1\)")
         c.r2_arg("view-%s-over-outputs" % fn, U + fn, "re:iter::traits::collect::IntoIterator::into_iter$", 0, must=["re:^call:(Block|Transaction)::outputs$", "arg1"])
     VI = U + "validate_input"
-    c.r1("input-needs-index", VI, B + "get_output_pos_height", via=0)
-    c.r1("input-needs-data", VI, "re:ReadablePMMR>::get_data$|pmmr::ReadablePMMR::get_data$", via=0,
+    c.r1("input-needs-index", VI, B + "get_output_pos_height", via=2)
+    c.r1("input-needs-data", VI, "re:ReadablePMMR>::get_data$|pmmr::ReadablePMMR::get_data$", via=2,
          desc="validate_input: ok only if the indexed position still holds data in the (fork-local) output MMR")
     c.r2("input-commitment-match", VI, cond=r"PartialEq::eq\(OutputIdentifier::commitment\(ReadablePMMR::get_data\(arg0\.output_pmmr, .*\), arg1\)$", fail_on=False,
          desc="validate_input: ok only if the stored output's commitment equals the input")
@@ -45,8 +45,8 @@ def run(c):
          fail_on=True, err="DuplicateCommitment",
          bypass=[(r"^discr\(Batch::get_output_pos\(arg2, Output::commitment\(arg1\)\)\)$", 1), (r"^discr\(ReadablePMMR::get_data\(arg0\.output_pmmr, Batch::get_output_pos\(", 0)],
          desc="validate_output: a stored output with the same commitment is a DuplicateCommitment; only bypasses: no index entry / no data at the indexed position")
-    c.r1("inputs-commit-only", U + "validate_inputs@iterator::Iterator::map#1", VI, via=0)
-    c.r1("inputs-features", U + "validate_inputs@iterator::Iterator::map#2", VI, via=0)
+    c.r1("inputs-commit-only", U + "validate_inputs@iterator::Iterator::map#1", VI, via=2)
+    c.r1("inputs-features", U + "validate_inputs@iterator::Iterator::map#2", VI, via=2)
     c.r2("inputs-features-match", U + "validate_inputs@iterator::Iterator::map#2@result::Result::and_then", cond=r"^PartialEq::eq\(arg1\.0, arg0\.0\)$", fail_on=False,
          desc="validate_inputs (features+commit): the stored identifier must equal the full input")
     c.r2_ret("inputs-collect", U + "validate_inputs", must=["call:Iterator::collect", "call:Iterator::map", "arg1"])
@@ -55,30 +55,30 @@ def run(c):
     AI = E + "apply_input"
     c.r2("spent-once", AI, cond=r"^PMMR::prune\(arg0\.output_pmmr, SubWithOverflow\(arg2\.pos, 1\)\.0\)\.@Ok\.0$", fail_on=False, err="AlreadySpent",
          desc="apply_input: prune returning Ok(false) (not in the leaf set) is AlreadySpent")
-    c.r1("prune-output", AI, PM + "prune", require_where=r"^arg0\.output_pmmr", via=0)
-    c.r1("prune-rproof", AI, PM + "prune", require_where=r"^arg0\.rproof_pmmr, SubWithOverflow\(arg2\.pos, 1\)", via=0)
-    c.r1("prune-rproof-after-output", AI, PM + "prune", require_where=r"^arg0\.output_pmmr", sink=PM + "prune", sink_where=r"^arg0\.rproof_pmmr", via=0)
+    c.r1("prune-output", AI, PM + "prune", require_where=r"^arg0\.output_pmmr", via=2)
+    c.r1("prune-rproof", AI, PM + "prune", require_where=r"^arg0\.rproof_pmmr, SubWithOverflow\(arg2\.pos, 1\)", via=2)
+    c.r1("prune-rproof-after-output", AI, PM + "prune", require_where=r"^arg0\.output_pmmr", sink=PM + "prune", sink_where=r"^arg0\.rproof_pmmr", via=2)
     AO = E + "apply_output"
     c.r2("no-duplicate-output", AO, cond=r"PartialEq::eq\(OutputIdentifier::commitment\(ReadablePMMR::get_data\(arg0\.output_pmmr, Batch::get_output_pos\(arg2,.*Output::commitment\(arg1\)\)$",
          fail_on=True, err="DuplicateCommitment", sink=PM + "push",
          bypass=[(r"^discr\(Batch::get_output_pos\(arg2, Output::commitment\(arg1\)\)\)$", 1), (r"^discr\(ReadablePMMR::get_data\(arg0\.output_pmmr, Batch::get_output_pos\(", 0)])
-    c.r1("push-output", AO, PM + "push", require_where=r"^arg0\.output_pmmr, Output::identifier\(arg1\)", via=0)
-    c.r1("push-rproof", AO, PM + "push", require_where=r"^arg0\.rproof_pmmr, Output::proof\(arg1\)", via=0)
+    c.r1("push-output", AO, PM + "push", require_where=r"^arg0\.output_pmmr, Output::identifier\(arg1\)", via=2)
+    c.r1("push-rproof", AO, PM + "push", require_where=r"^arg0\.rproof_pmmr, Output::proof\(arg1\)", via=2)
     c.r2("push-same-size", AO, ops={"Ne"}, lhs=["call:ReadablePMMR::unpruned_size", "arg0.output_pmmr"], rhs=["call:ReadablePMMR::unpruned_size", "arg0.rproof_pmmr"], err="Other")
     c.r2("push-same-pos", AO, ops={"Ne"}, lhs=["call:PMMR::push", "arg0.output_pmmr"], rhs=["call:PMMR::push", "arg0.rproof_pmmr"], err="Other")
     AB = E + "apply_block"
     c.loop("apply-outputs", AB, E + "apply_output", over=r"Block::outputs")
     c.loop("apply-output-index", AB, B + "save_output_pos_height", over=r"Block::outputs")
-    c.r1("apply-validate-inputs", AB, U + "validate_inputs", via=0)
+    c.r1("apply-validate-inputs", AB, U + "validate_inputs", via=2)
     c.loop("apply-inputs", AB, E + "apply_input", over=r"validate_inputs")
     c.loop("apply-input-index", AB, B + "delete_output_pos_height", over=r"validate_inputs")
-    c.r1("apply-inputs-after-validate", AB, U + "validate_inputs", sink=E + "apply_input", via=0)
-    c.r1("apply-spent-index", AB, B + "save_spent_index", via=0)
-    c.r1("apply-kernels", AB, E + "apply_kernels", via=0)
+    c.r1("apply-inputs-after-validate", AB, U + "validate_inputs", sink=E + "apply_input", via=2)
+    c.r1("apply-spent-index", AB, B + "save_spent_index", via=2)
+    c.r1("apply-kernels", AB, E + "apply_kernels", via=2)
     c.r2_arg("apply-input-from-validated", AB, E + "apply_input", 2, must=["call:UTXOView::validate_inputs"])
     # --- rewind
     RS = E + "rewind_single_block"
-    c.r1("rewind-mmrs", RS, E + "rewind_mmrs_to_pos", via=0)
+    c.r1("rewind-mmrs", RS, E + "rewind_mmrs_to_pos", via=2)
     c.r2_arg("rewind-spent", RS, E + "rewind_mmrs_to_pos", 3, must=["re:^call:Batch::(get_spent_index|get_block_input_bitmap)$"])
     c.loop("rewind-output-index", RS, B + "delete_output_pos_height", over=r"Block::outputs", called_only=True,
            desc="rewind_single_block: the position-index entry of every output of the rewound block is deleted (a missing entry is tolerated)")
@@ -87,9 +87,9 @@ def run(c):
          desc="rewind_single_block: every re-unspent position still holding data is written back to the position index")
     RM = E + "rewind_mmrs_to_pos"
     for tree, arg in (("output_pmmr", "arg1"), ("rproof_pmmr", "arg1"), ("kernel_pmmr", "arg2")):
-        c.r1("rewind-" + tree, RM, PM + "rewind", require_where=r"^arg0\.%s, %s," % (tree, arg), via=0)
+        c.r1("rewind-" + tree, RM, PM + "rewind", require_where=r"^arg0\.%s, %s," % (tree, arg), via=2)
     c.r2_arg("rewind-same-bitmap", RM, PM + "rewind", 2, must=["arg3"], where=r"^arg0\.(output|rproof)_pmmr", floor=2)
-    c.r1("rewind-loop", E + "rewind", E + "rewind_single_block", sink="re:store::Batch::get_previous_header$", start="re:store::Batch::get_block$", via=0,
+    c.r1("rewind-loop", E + "rewind", E + "rewind_single_block", sink="re:store::Batch::get_previous_header$", start="re:store::Batch::get_block$", via=2,
          desc="Extension::rewind: each block above the target is rewound via rewind_single_block")
     # --- leaf set
     LS = "grin_store::leaf_set::LeafSet::"
@@ -104,8 +104,8 @@ def run(c):
     c.r3("output-pos-writers", B + "save_output_pos_height", {E + "apply_block", E + "rewind_single_block", X + "TxHashSet::init_output_pos_index"}, floor_sites=3)
     c.r3("output-pos-deleters", B + "delete_output_pos_height", {E + "apply_block", E + "rewind_single_block"}, floor_sites=2)
     c.r3("spent-index-writers", B + "save_spent_index", {E + "apply_block", "grin_chain::chain::setup_head"}, floor_sites=2)
-    c.r1("leafset-rewind-removes", LS + "rewind", "re:croaring::bitmap::.*remove_range", sink="return", via=0)
-    c.r1("leafset-rewind-restores", LS + "rewind", "re:croaring::bitmap::.*or_inplace", sink="return", via=0)
+    c.r1("leafset-rewind-removes", LS + "rewind", "re:croaring::bitmap::.*remove_range", sink="return", via=2)
+    c.r1("leafset-rewind-restores", LS + "rewind", "re:croaring::bitmap::.*or_inplace", sink="return", via=2)
     c.r2_arg("leafset-rewind-restores-arg", LS + "rewind", "re:croaring::bitmap::.*or_inplace", 1, must=["arg2"])
     # --- MMR views are bounded by the size they were opened at (fork-local reads)
     n = 0
